@@ -437,6 +437,16 @@ def observe_final_check(specs):
 
 
 HAND_SPECS = [
+    # a newer opset version required ONLY inside a function body (called outside the If) + a v17 Split inside an If
+    # branch: the branch has to be adapted against the model's opset 19 (Split 18 needs `num_outputs`)
+    {"args": ["f", "b"], "inputs": [["x", 0], ["c", 1]],
+     "stmts": [["call", 0, [0]],
+               ["if", 1, {"stmts": [["op", "split0", 17, [0]]], "outs": [3]}, {"stmts": [], "outs": [0]}, 17],
+               ["op", "add", 17, [2, 3]]],
+     "outputs": [["y", 4]], "drop": False,
+     "funcs": [{"name": "newer", "domain": "dom", "nin": 1, "nout": 1,
+                "body": {"stmts": [["op", "identity", 19, [0]]], "outs": [1]}}],
+     "models": []},
     # former finding (fixed by 1c7785c): a model output named like a value the version converter introduces
     {"args": ["b", "f"], "inputs": [["c", 0], ["x", 1]],
      "stmts": [["if", 0, {"stmts": [["op", "rmax", 17, [1]], ["op", "identity", 19, [2]]], "outs": [3]},
